@@ -5,66 +5,33 @@ From VRL Require Import Base.Bytes Base.Value Model.ValueCrud Model.Expr Model.E
      Proofs.ExprInd Proofs.EvalProofs.
 Import ListNotations.
 
-Definition within (Q A : list (prefix * path)) (s s' : state) : Prop :=
-  exists new, tlog s' = new ++ tlog s /\ Forall (logged_ok Q A) new.
+Section Generic.
+  (* a relation between the state before and after some evaluation, indexed by the report (Q, A) *)
+  Variable R : list qent -> list (prefix * path) -> state -> state -> Prop.
+  Hypothesis R_vars : forall Q A s s', ev s' = ev s -> md s' = md s -> tlog s' = tlog s -> R Q A s s'.
+  Hypothesis R_trans : forall Q A s1 s2 s3, R Q A s1 s2 -> R Q A s2 s3 -> R Q A s1 s3.
+  Hypothesis R_weaken : forall Q A Q' A' s s', incl Q Q' -> incl A A' -> R Q A s s' -> R Q' A' s s'.
+  Hypothesis R_get : forall s pfx p, R [(None, (pfx, p))] [] s (snd (t_get s pfx p)).
+  Hypothesis R_insert : forall s pfx p v, R [] [(pfx, p)] s (t_insert s pfx p v).
+  Hypothesis R_remove : forall s pfx p c, R [(Some c, (pfx, p))] [] s (snd (t_remove s pfx p c)).
 
-Lemma within_refl Q A s s' : tlog s' = tlog s -> within Q A s s'.
-Proof. intros H. exists []. split; auto. Qed.
-
-Lemma within_trans Q A s1 s2 s3 : within Q A s1 s2 -> within Q A s2 s3 -> within Q A s1 s3.
-Proof.
-  intros [n1 [E1 F1]] [n2 [E2 F2]]. exists (n2 ++ n1). split.
-  - rewrite E2, E1, app_assoc. reflexivity.
-  - apply Forall_app; auto.
-Qed.
-
-Lemma logged_ok_weaken Q A Q' A' t : incl Q Q' -> incl A A' -> logged_ok Q A t -> logged_ok Q' A' t.
-Proof. intros HQ HA. destruct t; cbn; auto. Qed.
-
-Lemma within_weaken Q A Q' A' s s' : incl Q Q' -> incl A A' -> within Q A s s' -> within Q' A' s s'.
-Proof.
-  intros HQ HA [n [E Fn]]. exists n. split; auto.
-  eapply Forall_impl; [|exact Fn]. intros t. apply logged_ok_weaken; auto.
-Qed.
-
-Lemma t_get_within s pfx p : within [(pfx, p)] [] s (snd (t_get s pfx p)).
-Proof.
-  unfold t_get. destruct (pop_fault s) as [bad fs]. cbn [snd tlog].
-  exists [TGet pfx p]. split; auto. constructor; [cbn; auto|constructor].
-Qed.
-
-Lemma t_insert_within s pfx p v : within [] [(pfx, p)] s (t_insert s pfx p v).
-Proof.
-  unfold t_insert. destruct (pop_fault s) as [bad fs].
-  exists [TIns pfx p]. split; [destruct pfx; reflexivity|]. constructor; [cbn; auto|constructor].
-Qed.
-
-Lemma t_remove_within s pfx p c : within [(pfx, p)] [] s (snd (t_remove s pfx p c)).
-Proof.
-  unfold t_remove. destruct (pop_fault s) as [bad fs]. destruct bad.
-  - cbn [snd]. exists [TRem pfx p c]. split; [destruct pfx; reflexivity|]. constructor; [cbn; auto|constructor].
-  - destruct (remove (tval s pfx) p c) as [r v']. cbn [snd].
-    exists [TRem pfx p c]. split; [destruct pfx; reflexivity|]. constructor; [cbn; auto|constructor].
-Qed.
-
-Lemma target_insert_within s t v : within [] (tgt_paths t) s (target_insert s t v).
-Proof.
-  destruct t as [|x p|pfx p]; cbn [target_insert tgt_paths].
-  - apply within_refl; reflexivity.
-  - destruct p; [apply within_refl; reflexivity|].
-    destruct (var_get (vars s) x); apply within_refl; reflexivity.
-  - apply t_insert_within.
-Qed.
-
-Section InfoProofs.
   Variable F : fname -> list value -> option value.
   Variable binop : opcode -> value -> value -> option value.
   Notation evl := (eval F binop).
 
-  Definition ok_expr (e : expr) : Prop := forall s, within (queries e) (assigns e) s (snd (evl e s)).
+  Lemma target_insert_R s t v : R [] (tgt_paths t) s (target_insert s t v).
+  Proof.
+    destruct t as [|x p|pfx p]; cbn [target_insert tgt_paths].
+    - apply R_vars; reflexivity.
+    - destruct p; [apply R_vars; reflexivity|].
+      destruct (var_get (vars s) x); apply R_vars; reflexivity.
+    - apply R_insert.
+  Qed.
+
+  Definition ok_expr (e : expr) : Prop := forall s, R (queries e) (assigns e) s (snd (evl e s)).
 
   Lemma ql_eq es :
-    (fix ql (l : list expr) : list (prefix * path) :=
+    (fix ql (l : list expr) : list qent :=
        match l with [] => [] | x :: r => queries x ++ ql r end) es = queries_l es.
   Proof. induction es as [|x r IH]; cbn; auto; try (rewrite IH; reflexivity). Qed.
   Lemma al_eq es :
@@ -72,56 +39,56 @@ Section InfoProofs.
        match l with [] => [] | x :: r => assigns x ++ al r end) es = assigns_l es.
   Proof. induction es as [|x r IH]; cbn; auto; try (rewrite IH; reflexivity). Qed.
 
-  Ltac wk := eapply within_weaken; [| |eassumption]; cbn; auto using incl_refl, incl_appl, incl_appr, incl_nil_l.
+  Ltac wk := eapply R_weaken; [| |eassumption]; cbn; auto using incl_refl, incl_appl, incl_appr, incl_nil_l.
 
   Lemma blk_within es : Forall ok_expr es ->
-    forall s, within (queries_l es) (assigns_l es) s (snd (blk F binop es s)).
+    forall s, R (queries_l es) (assigns_l es) s (snd (blk F binop es s)).
   Proof.
     induction 1 as [|e es He Hes IH]; intros s.
-    - apply within_refl. reflexivity.
+    - apply R_vars; reflexivity.
     - unfold queries_l, assigns_l. cbn [flat_map]. fold (queries_l es) (assigns_l es).
       specialize (He s). destruct es as [|e2 es'].
-      + cbn [blk]. eapply within_weaken; [| |exact He]; auto using incl_appl, incl_refl.
+      + cbn [blk]. eapply R_weaken; [| |exact He]; auto using incl_appl, incl_refl.
       + change (blk F binop (e :: e2 :: es') s) with
           (match evl e s with (inl _, s') => blk F binop (e2 :: es') s' | (inr er, s') => (inr er, s') end).
         destruct (evl e s) as [[v|er] s'] eqn:E; cbn [snd] in *.
-        * eapply within_trans.
-          -- eapply within_weaken; [| |exact He]; auto using incl_appl, incl_refl.
-          -- eapply within_weaken; [| |apply IH]; auto using incl_appr, incl_refl.
-        * eapply within_weaken; [| |exact He]; auto using incl_appl, incl_refl.
+        * eapply R_trans.
+          -- eapply R_weaken; [| |exact He]; auto using incl_appl, incl_refl.
+          -- eapply R_weaken; [| |apply IH]; auto using incl_appr, incl_refl.
+        * eapply R_weaken; [| |exact He]; auto using incl_appl, incl_refl.
   Qed.
 
   Lemma arr_go_within es : Forall ok_expr es ->
-    forall acc s, within (queries_l es) (assigns_l es) s (snd (arr_go F binop es acc s)).
+    forall acc s, R (queries_l es) (assigns_l es) s (snd (arr_go F binop es acc s)).
   Proof.
     induction 1 as [|e es He Hes IH]; intros acc s; cbn [arr_go].
-    - apply within_refl. reflexivity.
+    - apply R_vars; reflexivity.
     - unfold queries_l, assigns_l. cbn [flat_map]. fold (queries_l es) (assigns_l es).
       specialize (He s). destruct (evl e s) as [[v|er] s'] eqn:E; cbn [snd] in *.
-      + eapply within_trans.
-        * eapply within_weaken; [| |exact He]; auto using incl_appl, incl_refl.
-        * eapply within_weaken; [| |apply IH]; auto using incl_appr, incl_refl.
-      + eapply within_weaken; [| |exact He]; auto using incl_appl, incl_refl.
+      + eapply R_trans.
+        * eapply R_weaken; [| |exact He]; auto using incl_appl, incl_refl.
+        * eapply R_weaken; [| |apply IH]; auto using incl_appr, incl_refl.
+      + eapply R_weaken; [| |exact He]; auto using incl_appl, incl_refl.
   Qed.
 
   Lemma call_go_within f es : Forall ok_expr es ->
-    forall acc s, within (queries_l es) (assigns_l es) s (snd (call_go F binop f es acc s)).
+    forall acc s, R (queries_l es) (assigns_l es) s (snd (call_go F binop f es acc s)).
   Proof.
     induction 1 as [|e es He Hes IH]; intros acc s; cbn [call_go].
-    - apply within_refl. reflexivity.
+    - apply R_vars; reflexivity.
     - unfold queries_l, assigns_l. cbn [flat_map]. fold (queries_l es) (assigns_l es).
       specialize (He s). destruct (evl e s) as [[v|er] s'] eqn:E; cbn [snd] in *.
-      + eapply within_trans.
-        * eapply within_weaken; [| |exact He]; auto using incl_appl, incl_refl.
-        * eapply within_weaken; [| |apply IH]; auto using incl_appr, incl_refl.
-      + eapply within_weaken; [| |exact He]; auto using incl_appl, incl_refl.
+      + eapply R_trans.
+        * eapply R_weaken; [| |exact He]; auto using incl_appl, incl_refl.
+        * eapply R_weaken; [| |apply IH]; auto using incl_appr, incl_refl.
+      + eapply R_weaken; [| |exact He]; auto using incl_appl, incl_refl.
   Qed.
 
   Definition queries_kv (kvs : list (bytes * expr)) := flat_map (fun kv => queries (snd kv)) kvs.
   Definition assigns_kv (kvs : list (bytes * expr)) := flat_map (fun kv => assigns (snd kv)) kvs.
 
   Lemma qkv_eq kvs :
-    (fix go (l : list (bytes * expr)) : list (prefix * path) :=
+    (fix go (l : list (bytes * expr)) : list qent :=
        match l with [] => [] | kv :: r => queries (snd kv) ++ go r end) kvs = queries_kv kvs.
   Proof. induction kvs as [|x r IH]; cbn; auto; try (rewrite IH; reflexivity). Qed.
   Lemma akv_eq kvs :
@@ -130,68 +97,68 @@ Section InfoProofs.
   Proof. induction kvs as [|x r IH]; cbn; auto; try (rewrite IH; reflexivity). Qed.
 
   Lemma obj_go_within kvs : Forall (fun kv => ok_expr (snd kv)) kvs ->
-    forall acc s, within (queries_kv kvs) (assigns_kv kvs) s (snd (obj_go F binop kvs acc s)).
+    forall acc s, R (queries_kv kvs) (assigns_kv kvs) s (snd (obj_go F binop kvs acc s)).
   Proof.
     induction 1 as [|[k e] kvs He Hes IH]; intros acc s; cbn [obj_go].
-    - apply within_refl. reflexivity.
+    - apply R_vars; reflexivity.
     - unfold queries_kv, assigns_kv. cbn [flat_map snd]. fold (queries_kv kvs) (assigns_kv kvs).
       cbn [snd] in He. specialize (He s). destruct (evl e s) as [[v|er] s'] eqn:E; cbn [snd] in *.
-      + eapply within_trans.
-        * eapply within_weaken; [| |exact He]; auto using incl_appl, incl_refl.
-        * eapply within_weaken; [| |apply IH]; auto using incl_appr, incl_refl.
-      + eapply within_weaken; [| |exact He]; auto using incl_appl, incl_refl.
+      + eapply R_trans.
+        * eapply R_weaken; [| |exact He]; auto using incl_appl, incl_refl.
+        * eapply R_weaken; [| |apply IH]; auto using incl_appr, incl_refl.
+      + eapply R_weaken; [| |exact He]; auto using incl_appl, incl_refl.
   Qed.
 
   (* closures: the runners do not touch the target themselves *)
-  Lemma bind_param_tlog s p a : tlog (snd (bind_param s p a)) = tlog s.
-  Proof. destruct p; reflexivity. Qed.
-  Lemma cleanup_param_tlog s p o : tlog (cleanup_param s p o) = tlog s.
-  Proof. destruct p, o; reflexivity. Qed.
+  Lemma bind_param_R Q A s p a : R Q A s (snd (bind_param s p a)).
+  Proof. destruct p; apply R_vars; reflexivity. Qed.
+  Lemma cleanup_param_R Q A s p o : R Q A s (cleanup_param s p o).
+  Proof. destruct p, o; apply R_vars; reflexivity. Qed.
 
-  Lemma run1_within Q A body p a : (forall s, within Q A s (snd (body s))) ->
-    forall s, within Q A s (snd (run1 body p a s)).
+  Lemma run1_within Q A body p a : (forall s, R Q A s (snd (body s))) ->
+    forall s, R Q A s (snd (run1 body p a s)).
   Proof.
-    intros Hb s. unfold run1. pose proof (bind_param_tlog s p a) as Eb.
+    intros Hb s. unfold run1. pose proof (bind_param_R Q A s p a) as Eb.
     destruct (bind_param s p a) as [old s1]. cbn [snd] in Eb. specialize (Hb s1).
     destruct (body s1) as [r s2]. cbn [snd] in *.
-    destruct Hb as [n [E Fn]]. exists n. split; auto. rewrite cleanup_param_tlog, E, Eb. reflexivity.
+    eapply R_trans; [exact Eb|]. eapply R_trans; [exact Hb|]. apply cleanup_param_R.
   Qed.
 
-  Lemma run2_within Q A body p0 p1 a b : (forall s, within Q A s (snd (body s))) ->
-    forall s, within Q A s (snd (run2 body p0 p1 a b s)).
+  Lemma run2_within Q A body p0 p1 a b : (forall s, R Q A s (snd (body s))) ->
+    forall s, R Q A s (snd (run2 body p0 p1 a b s)).
   Proof.
-    intros Hb s. unfold run2. pose proof (bind_param_tlog s p0 a) as Eb.
+    intros Hb s. unfold run2. pose proof (bind_param_R Q A s p0 a) as Eb.
     destruct (bind_param s p0 a) as [old0 s1]. cbn [snd] in Eb.
-    pose proof (bind_param_tlog s1 p1 b) as Eb1.
+    pose proof (bind_param_R Q A s1 p1 b) as Eb1.
     destruct (bind_param s1 p1 b) as [old1 s2]. cbn [snd] in Eb1. specialize (Hb s2).
     destruct (body s2) as [r s3]. cbn [snd] in *.
-    destruct Hb as [n [E Fn]]. exists n. split; auto.
-    rewrite !cleanup_param_tlog, E, Eb1, Eb. reflexivity.
+    eapply R_trans; [exact Eb|]. eapply R_trans; [exact Eb1|]. eapply R_trans; [exact Hb|].
+    eapply R_trans; apply cleanup_param_R.
   Qed.
 
   Lemma loop_within {X Y} Q A (step : X -> state -> (Y + err) * state) :
-    (forall a s, within Q A s (snd (step a s))) ->
-    forall items s, within Q A s (snd (loop step items s)).
+    (forall a s, R Q A s (snd (step a s))) ->
+    forall items s, R Q A s (snd (loop step items s)).
   Proof.
     intros Hs. induction items as [|a r IH]; intros s; cbn [loop].
-    - apply within_refl; reflexivity.
+    - apply R_vars; reflexivity.
     - specialize (Hs a s). destruct (step a s) as [[b|e] s'] eqn:E; cbn [snd] in *; auto.
       specialize (IH s'). destruct (loop step r s') as [[bs|e] s''] eqn:El; cbn [snd] in *;
-        eapply within_trans; eauto.
+        eapply R_trans; eauto.
   Qed.
 
-  Lemma run_closure_within Q A body ps cf v :
-    (forall s, within Q A s (snd (body s))) ->
-    forall s, within Q A s (snd (run_closure body ps cf v s)).
+  Lemma run_closure_R Q A body ps cf v :
+    (forall s, R Q A s (snd (body s))) ->
+    forall s, R Q A s (snd (run_closure body ps cf v s)).
   Proof.
     intros Hb s.
     assert (H1 := fun p a => run1_within Q A body p a Hb).
     assert (H2 := fun p0 p1 a b => run2_within Q A body p0 p1 a b Hb).
     assert (Lift : forall X (f : X -> value) (x : (X + err) * state) s0,
-               within Q A s0 (snd x) -> within Q A s0 (snd (lift f x))).
+               R Q A s0 (snd x) -> R Q A s0 (snd (lift f x))).
     { intros X f [[x|e] s1] s0 H; exact H. }
     unfold run_closure.
-    destruct cf, v; try (apply within_refl; reflexivity); try (apply H1);
+    destruct cf, v; try (apply R_vars; reflexivity); try (apply H1);
       apply Lift; apply loop_within; intros a s1.
     - unfold step_each_kv. specialize (H2 (param ps 0) (param ps 1) (VBytes (fst a)) (snd a) s1).
       destruct (run2 _ _ _ _ _ _) as [[?|?] ?]; exact H2.
@@ -209,14 +176,14 @@ Section InfoProofs.
       destruct (run1 _ _ _ _) as [[?|?] ?]; exact H1.
   Qed.
 
-  Theorem eval_within e : ok_expr e.
+  Theorem eval_R e : ok_expr e.
   Proof.
     induction e using expr_ind'; unfold ok_expr in *; intros s.
-    - apply within_refl; reflexivity.
-    - apply within_refl; reflexivity.
-    - cbn [eval queries assigns]. pose proof (t_get_within s pfx p) as H.
+    - apply R_vars; reflexivity.
+    - apply R_vars; reflexivity.
+    - cbn [eval queries assigns]. pose proof (R_get s pfx p) as H.
       destruct (t_get s pfx p) as [r s']. exact H.
-    - apply within_refl; reflexivity.
+    - apply R_vars; reflexivity.
     - cbn [eval queries assigns]. specialize (IHe s). destruct (evl e s) as [[v|er] s']; exact IHe.
     - change (evl (EArr es) s) with (arr_go F binop es [] s). cbn [queries assigns]. rewrite ql_eq, al_eq. apply arr_go_within; auto.
     - change (evl (EObj kvs) s) with (obj_go F binop kvs [] s). cbn [queries assigns]. rewrite qkv_eq, akv_eq. apply obj_go_within; auto.
@@ -227,75 +194,133 @@ Section InfoProofs.
       pose proof (blk_within c H s) as Hc.
       destruct (blk F binop c s) as [[v|er] s'] eqn:Ec; cbn [snd] in Hc.
       + destruct (try_boolean v) as [[|]|].
-        * eapply within_trans; [wk|]. pose proof (blk_within t H0 s') as Ht. wk.
+        * eapply R_trans; [wk|]. pose proof (blk_within t H0 s') as Ht. wk.
         * destruct f as [fb|].
-          -- eapply within_trans; [wk|]. cbn in H1. pose proof (blk_within fb H1 s') as Hf.
-             try rewrite ql_eq; try rewrite al_eq. eapply within_weaken; [| |exact Hf];
+          -- eapply R_trans; [wk|]. cbn in H1. pose proof (blk_within fb H1 s') as Hf.
+             try rewrite ql_eq; try rewrite al_eq. eapply R_weaken; [| |exact Hf];
                eauto using incl_appr, incl_refl.
           -- cbn [snd]. wk.
         * cbn [snd]. wk.
       + wk.
     - (* op *)
       cbn [queries assigns].
-      assert (Ha : forall s0, within (queries e1 ++ queries e2) (assigns e1 ++ assigns e2) s0 (snd (evl e1 s0))).
+      assert (Ha : forall s0, R (queries e1 ++ queries e2) (assigns e1 ++ assigns e2) s0 (snd (evl e1 s0))).
       { intros s0. specialize (IHe1 s0). wk. }
-      assert (Hb : forall s0, within (queries e1 ++ queries e2) (assigns e1 ++ assigns e2) s0 (snd (evl e2 s0))).
+      assert (Hb : forall s0, R (queries e1 ++ queries e2) (assigns e1 ++ assigns e2) s0 (snd (evl e2 s0))).
       { intros s0. specialize (IHe2 s0). wk. }
       destruct o;
         try (rewrite eval_plain by reflexivity; specialize (Ha s);
              destruct (evl e1 s) as [[v|er] s'] eqn:E1; cbn [snd] in *; auto;
              specialize (Hb s'); destruct (evl e2 s') as [[w|er] s''] eqn:E2; cbn [snd] in *;
-             eapply within_trans; eauto).
+             eapply R_trans; eauto).
       + rewrite eval_or. specialize (Ha s). destruct (evl e1 s) as [[v|er] s'] eqn:E1; cbn [snd] in *; auto.
-        destruct (falsy v); auto. eapply within_trans; eauto.
+        destruct (falsy v); auto. eapply R_trans; eauto.
       + rewrite eval_and. specialize (Ha s). destruct (evl e1 s) as [[v|er] s'] eqn:E1; cbn [snd] in *; auto.
         destruct (falsy v); auto. specialize (Hb s').
-        destruct (evl e2 s') as [[w|er] s''] eqn:E2; cbn [snd] in *; eapply within_trans; eauto.
+        destruct (evl e2 s') as [[w|er] s''] eqn:E2; cbn [snd] in *; eapply R_trans; eauto.
       + rewrite eval_err. specialize (Ha s). destruct (evl e1 s) as [[v|[ | | | ]] s'] eqn:E1; cbn [snd] in *; auto.
-        eapply within_trans; eauto.
+        eapply R_trans; eauto.
     - cbn [eval queries assigns]. specialize (IHe s). destruct (evl e s) as [[v|er] s']; exact IHe.
     - (* assign *)
       cbn [eval queries assigns]. specialize (IHe s). destruct (evl e s) as [[v|er] s']; cbn [snd] in *.
-      + eapply within_trans; [wk|]. pose proof (target_insert_within s' t v) as Ht. wk.
+      + eapply R_trans; [wk|]. pose proof (target_insert_R s' t v) as Ht. wk.
       + wk.
     - (* assign inf *)
       rewrite eval_assign_inf. cbn [queries assigns]. specialize (IHe s).
       destruct (evl e s) as [[v|[ | | | ]] s']; cbn [snd] in *; try wk.
-      + eapply within_trans; [wk|]. eapply within_trans.
-        * pose proof (target_insert_within s' ok v) as Ht. wk.
-        * pose proof (target_insert_within (target_insert s' ok v) er VNull) as Ht. wk.
-      + eapply within_trans; [wk|]. eapply within_trans.
-        * pose proof (target_insert_within s' ok d) as Ht. wk.
-        * pose proof (target_insert_within (target_insert s' ok d) er ERRMSG) as Ht. wk.
+      + eapply R_trans; [wk|]. eapply R_trans.
+        * pose proof (target_insert_R s' ok v) as Ht. wk.
+        * pose proof (target_insert_R (target_insert s' ok v) er VNull) as Ht. wk.
+      + eapply R_trans; [wk|]. eapply R_trans.
+        * pose proof (target_insert_R s' ok d) as Ht. wk.
+        * pose proof (target_insert_R (target_insert s' ok d) er ERRMSG) as Ht. wk.
     - (* abort *)
       destruct m as [m|]; cbn [eval queries assigns].
       + cbn in H. specialize (H s). destruct (evl m s) as [[[]|er] s']; exact H.
-      + apply within_refl; reflexivity.
+      + apply R_vars; reflexivity.
     - cbn [eval queries assigns]. specialize (IHe s). destruct (evl e s) as [[v|er] s']; exact IHe.
     - change (evl (ECall f args) s) with (call_go F binop f args [] s). cbn [queries assigns]. rewrite ql_eq, al_eq. apply call_go_within; auto.
-    - cbn [eval queries assigns]. pose proof (t_remove_within s pfx p c) as H.
+    - cbn [eval queries assigns]. pose proof (R_remove s pfx p c) as H.
       destruct (t_remove s pfx p c) as [r s']. exact H.
-    - cbn [eval]. destruct (var_get (vars s) x); [|apply within_refl; reflexivity].
-      destruct (remove v p c). apply within_refl; reflexivity.
-    - cbn [eval queries assigns]. pose proof (t_get_within s pfx p) as H.
+    - cbn [eval]. destruct (var_get (vars s) x); [|apply R_vars; reflexivity].
+      destruct (remove v p c). apply R_vars; reflexivity.
+    - cbn [eval queries assigns]. pose proof (R_get s pfx p) as H.
       destruct (t_get s pfx p) as [r s']. exact H.
-    - apply within_refl; reflexivity.
+    - apply R_vars; reflexivity.
     - (* closure *)
       rewrite eval_closure. cbn [queries assigns]. rewrite ql_eq, al_eq.
       specialize (IHe s). destruct (evl e s) as [[v|er] s'] eqn:E; cbn [snd] in *.
-      + eapply within_trans; [wk|].
-        apply run_closure_within. intros s0. pose proof (blk_within body H s0) as Hb. wk.
+      + eapply R_trans; [wk|].
+        apply run_closure_R. intros s0. pose proof (blk_within body H s0) as Hb. wk.
       + wk.
   Qed.
 
   (* program level: everything Runtime::resolve's run of the program does to the target *)
-  Theorem run_within es s :
-    within (queries_l es) (assigns_l es) s (snd (run F binop es s)).
+  Theorem run_R es s :
+    R (queries_l es) (assigns_l es) s (snd (run F binop es s)).
   Proof.
     unfold run. destruct (pop_fault s) as [bad fs]. destruct bad.
-    - apply within_refl; reflexivity.
-    - pose proof (eval_within (EBlock es) (mkState (vars s) (ev s) (md s) (tlog s) fs)) as H.
+    - apply R_vars; reflexivity.
+    - pose proof (eval_R (EBlock es) (mkState (vars s) (ev s) (md s) (tlog s) fs)) as H.
       cbn [queries assigns] in H. rewrite ql_eq, al_eq in H.
+      apply R_trans with (s2 := mkState (vars s) (ev s) (md s) (tlog s) fs); [apply R_vars; reflexivity|].
       destruct (evl (EBlock es) _) as [[v|[ | | | ]] s']; cbn [snd] in *; exact H.
   Qed.
-End InfoProofs.
+End Generic.
+
+(* ---------- instance 1: the log of Target operations (C16) ---------- *)
+Definition within (Q : list qent) (A : list (prefix * path)) (s s' : state) : Prop :=
+  exists new, tlog s' = new ++ tlog s /\ Forall (logged_ok Q A) new.
+
+Lemma within_refl Q A s s' : ev s' = ev s -> md s' = md s -> tlog s' = tlog s -> within Q A s s'.
+Proof. intros _ _ H. exists []. split; auto. Qed.
+
+Lemma within_trans Q A s1 s2 s3 : within Q A s1 s2 -> within Q A s2 s3 -> within Q A s1 s3.
+Proof.
+  intros [n1 [E1 F1]] [n2 [E2 F2]]. exists (n2 ++ n1). split.
+  - rewrite E2, E1, app_assoc. reflexivity.
+  - apply Forall_app; auto.
+Qed.
+
+Lemma logged_ok_weaken Q A Q' A' t : incl Q Q' -> incl A A' -> logged_ok Q A t -> logged_ok Q' A' t.
+Proof.
+  intros HQ HA. destruct t; cbn; auto.
+  intros H. apply in_map_iff in H. destruct H as [x [E Hx]]. apply in_map_iff. exists x. auto.
+Qed.
+
+Lemma within_weaken Q A Q' A' s s' : incl Q Q' -> incl A A' -> within Q A s s' -> within Q' A' s s'.
+Proof.
+  intros HQ HA [n [E Fn]]. exists n. split; auto.
+  eapply Forall_impl; [|exact Fn]. intros t. apply logged_ok_weaken; auto.
+Qed.
+
+Lemma t_get_within s pfx p : within [(None, (pfx, p))] [] s (snd (t_get s pfx p)).
+Proof.
+  unfold t_get. destruct (pop_fault s) as [bad fs]. cbn [snd tlog].
+  exists [TGet pfx p]. split; auto. constructor; [cbn; auto|constructor].
+Qed.
+
+Lemma t_insert_within s pfx p v : within [] [(pfx, p)] s (t_insert s pfx p v).
+Proof.
+  unfold t_insert. destruct (pop_fault s) as [bad fs].
+  exists [TIns pfx p]. split; [destruct pfx; reflexivity|]. constructor; [cbn; auto|constructor].
+Qed.
+
+Lemma t_remove_within s pfx p c : within [(Some c, (pfx, p))] [] s (snd (t_remove s pfx p c)).
+Proof.
+  unfold t_remove. destruct (pop_fault s) as [bad fs]. destruct bad.
+  - cbn [snd]. exists [TRem pfx p c]. split; [destruct pfx; reflexivity|]. constructor; [cbn; auto|constructor].
+  - destruct (remove (tval s pfx) p c) as [r v']. cbn [snd].
+    exists [TRem pfx p c]. split; [destruct pfx; reflexivity|]. constructor; [cbn; auto|constructor].
+Qed.
+
+
+Theorem eval_within F binop e : forall s, within (queries e) (assigns e) s (snd (eval F binop e s)).
+Proof.
+  exact (eval_R within within_refl within_trans within_weaken t_get_within t_insert_within t_remove_within F binop e).
+Qed.
+
+Theorem run_within F binop es s : within (queries_l es) (assigns_l es) s (snd (run F binop es s)).
+Proof.
+  exact (run_R within within_refl within_trans within_weaken t_get_within t_insert_within t_remove_within F binop es s).
+Qed.
